@@ -18,10 +18,15 @@ theorem clipEnd_infinity (cfg cfg' : Cfg) (hbs : cfg.bs = cfg'.bs) (sender : Int
 def IsRR (cfg : Cfg) (t : Int) (m : OutMsg) : Prop :=
   m.kind = "2" ∧ m.f.get? 7 = some (toString t) ∧ m.f.get? 16 = some (toString (infinityEnd cfg))
 
-theorem isRR_rrOut (cfg : Cfg) (hch : cfg.chunk = 0) (t e n : Int) : IsRR cfg t { rrOut cfg t e with seq := n } := by
-  refine ⟨rfl, ?_, ?_⟩
-  · simp [rrOut, mkOut, get?_cons]
-  · simp [rrOut, rrEnd, mkOut, get?_cons, hch]
+/-- (number and header bookkeeping do not matter) -/
+theorem isRR_of (cfg : Cfg) (hch : cfg.chunk = 0) (t e : Int) (m : OutMsg) (hk : m.kind = "2") (hf : m.f = (rrOut cfg t e).f) :
+    IsRR cfg t m := by
+  refine ⟨hk, ?_, ?_⟩
+  · rw [hf]; simp [rrOut, mkOut, get?_cons]
+  · rw [hf]; simp [rrOut, rrEnd, mkOut, get?_cons, hch]
+
+theorem isRR_rrOut (cfg : Cfg) (hch : cfg.chunk = 0) (t e n : Int) : IsRR cfg t { rrOut cfg t e with seq := n } :=
+  isRR_of cfg hch t e _ rfl rfl
 
 theorem rrCur_chunk0 (cfg : Cfg) (hch : cfg.chunk = 0) (t e : Int) : rrCur cfg t e = 0 := by simp [rrCur, hch]
 
@@ -29,8 +34,9 @@ theorem rrCur_chunk0 (cfg : Cfg) (hch : cfg.chunk = 0) (t e : Int) : rrCur cfg t
     whatever it still had queued -/
 theorem res_rr_fix {c : Ctx} (hc : CtxOK c) {s : Sess} (hs : s.cfg = c.cfg) {m : OutMsg} (hw : Wire c.P m) (b : Int)
     (hrr : IsRR c.pcfg b m) (hb1 : 1 ≤ b) (hb2 : b ≤ maxSeq) (hst : RecvSt s.st) (ho : s.out = true) (hge : s.store.target ≤ m.seq) :
-    ∃ W q, ((replyPlan true s.store b (s.store.sender - 1) = [] ∧ W = [] ∧ q = s.toSend) ∨
-            (replyPlan true s.store b (s.store.sender - 1) ≠ [] ∧ W = s.toSend ++ replyPlan true s.store b (s.store.sender - 1) ∧ q = [])) ∧
+    ∃ W q, ((replyPlanR (replyLastOf s (toIn c.pcfg m)) true s.store b (s.store.sender - 1) = [] ∧ W = [] ∧ q = s.toSend) ∨
+            (replyPlanR (replyLastOf s (toIn c.pcfg m)) true s.store b (s.store.sender - 1) ≠ [] ∧
+              W = s.toSend ++ replyPlanR (replyLastOf s (toIn c.pcfg m)) true s.store b (s.store.sender - 1) ∧ q = [])) ∧
       Res s (fixMsgInCore s (toIn c.pcfg m)) 0 W q (if m.seq = s.store.target then s.store.target + 1 else s.store.target)
         (stAt s.st (if m.seq = s.store.target then s.store.target + 1 else s.store.target)) := by
   obtain ⟨hk2, h7, h16⟩ := hrr
@@ -72,18 +78,21 @@ theorem rrB {cfgA cfgB : Cfg} (hcf : CfgsOK cfgA cfgB) {l : LSt} (h : LInv cfgA 
     show IsRR l.a.cfg b m; rw [h.ca]; exact hrr
   obtain ⟨W, q, hWq, hres⟩ := res_rr_fix hctx (s := l.b.clearLog) rfl hw b hrr' hb1 (by have := hbnd.2; omega) hst ho hge
   obtain ⟨_, _, _, _, hall⟩ := hfull.2 rfl
-  have hseg := seg_reply l.b.store h.ba.sok b (l.b.store.sender - 1) (by omega) hblt (Int.le_refl _)
+  generalize hlt : replyLastOf l.b.clearLog (toIn (mkCtx l.b l.a (noteRcv l.rcvB (toIn l.a.cfg m)) l.dlvB).pcfg m) = lt at hWq
+  have hWq : (replyPlanR lt true l.b.store b (l.b.store.sender - 1) = [] ∧ W = [] ∧ q = l.b.toSend) ∨
+      (replyPlanR lt true l.b.store b (l.b.store.sender - 1) ≠ [] ∧ W = l.b.toSend ++ replyPlanR lt true l.b.store b (l.b.store.sender - 1) ∧ q = []) := hWq
+  have hseg := seg_reply l.b.store h.ba.sok b (l.b.store.sender - 1) (by omega) hblt (Int.le_refl _) lt
     (fun n h1 h2 => hall n (by omega) h2)
-  have hne : replyPlan true l.b.store b (l.b.store.sender - 1) ≠ [] := by
+  have hne : replyPlanR lt true l.b.store b (l.b.store.sender - 1) ≠ [] := by
     intro he; rw [he] at hseg; have := seg_nil_eq hseg; omega
-  have hWq' : W = l.b.toSend ++ replyPlan true l.b.store b (l.b.store.sender - 1) ∧ q = [] := by
+  have hWq' : W = l.b.toSend ++ replyPlanR lt true l.b.store b (l.b.store.sender - 1) ∧ q = [] := by
     rcases hWq with ⟨he, _⟩ | ⟨_, h1, h2⟩
     · exact absurd he hne
     · exact ⟨h1, h2⟩
   have hnx : (stAt l.b.st t').connected = true := recvSt_connected (recvSt_stAt hst t')
   obtain ⟨k1, k2, k3, k4, k5, k6, k7, k8, k9, k10, k11, k12⟩ :=
     deliverB_gen hcf h hq (recvSt_connected hst) hbnd hres hnx (by have := hbnd.2; omega)
-  refine ⟨replyPlan true l.b.store b (l.b.store.sender - 1), ?_, k1, k2, k3, ?_, k5, k6, ?_, ?_, ?_, k10, k11, k12⟩
+  refine ⟨replyPlanR lt true l.b.store b (l.b.store.sender - 1), ?_, k1, k2, k3, ?_, k5, k6, ?_, ?_, ?_, k10, k11, k12⟩
   · have := hseg.mono k12
     rw [show l.b.store.sender - 1 + 1 = l.b.store.sender by omega] at this
     exact this
